@@ -45,7 +45,7 @@ const POOL: &[&[u8]] = &[
 
 /// Lockstep expectation: (offset behind the terminator, number of handler calls) of every
 /// message of the stream, messages delimited by spec::lexscan and the calls taken from `run`
-/// on the message alone (none for a message that does not fit the buffer: it is discarded).
+/// on the message alone, into a writer of N bytes (none for a message that does not fit the buffer: it is discarded).
 fn lockstep(s: &[u8], n: usize) -> Option<Vec<(usize, usize)>> {
     let (msgs, _) = mc::spec::lexscan::split(s);
     let mut v = vec![];
@@ -57,8 +57,10 @@ fn lockstep(s: &[u8], n: usize) -> Option<Vec<(usize, usize)>> {
             v.push((off, 0));
             continue;
         }
-        let (o, obs) = mc::mainx::run_obs(m, Pattern::NONE);
-        if o.end != End::Returned {
+        // `run` with a response writer of N bytes, as process has one: a unit whose response finds
+        // no room fails there too, and whether the units behind it run is the library's choice
+        let (ok, obs) = mc::mainx::run_each_obs(&[m], n);
+        if !ok {
             return None;
         }
         v.push((off, obs.calls.len()));
